@@ -89,7 +89,7 @@ def plan(tier, seed):
         ngen, ncc, ndata = 8, 16, 8
         cc_per, data_rand = 3, 300
     else:
-        ncls, per = 800, 14
+        ncls, per = 1200, 14
         ngen, ncc, ndata = 32, 96, 32
         cc_per, data_rand = 10, 3000
     for i in range(ncls):
@@ -795,11 +795,12 @@ def census_case(case, r: R):
     reg = registries()
     kinds = {}
     tags = {}
+    syn = {}
     for e in reg['entries']:
         if e.kind == 'codec':
             r.ev('synthetic_classes')
-            for d in _flat(e.descs):
-                tags[d.tag] = tags.get(d.tag, 0) + 1
+            for d in _flat(e.descs or []):
+                syn[d.tag] = syn.get(d.tag, 0) + 1
             continue
         r.ev('classes_registered')
         kinds[e.kind] = kinds.get(e.kind, 0) + 1
@@ -815,6 +816,17 @@ def census_case(case, r: R):
     r.ev('sync_commands_registered', len(sync))
     r.extra['classes_by_registry'] = [f'{k}={v}' for k, v in sorted(kinds.items())]
     r.extra['field_paths_declared'] = [f'{k}={v}' for k, v in sorted(tags.items())]
+    r.extra['field_paths_synthetic_object'] = [f'{k}={v}' for k, v in sorted(syn.items())]
+    rp = {}
+    for e in sync:
+        rpc = getattr(e.cls, 'return_parameters_class', None)
+        try:
+            for d in _flat(ref.describe_class(rpc)):
+                rp[d.tag] = rp.get(d.tag, 0) + 1
+        except ref.Unsupported as ex:
+            r.add_extra_list('return_parameter_classes_unpopulated', f'{e.name}: {ex}')
+    r.extra['field_paths_return_parameters'] = [f'{k}={v}' for k, v in sorted(rp.items())]
+    r.extra.setdefault('return_parameter_classes_unpopulated', [])
     r.extra.setdefault('classes_unpopulated', [])
     r.evals()
     r.sample = {'kind': 'census', 'registries': kinds, 'field_paths': tags}
